@@ -34,29 +34,34 @@ Readings of the English (weaker reading where ambiguous):
     (modelled, not verified).  The proxy file is unbuffered so that "k effects performed" means the same on
     disk and in the model.
 
-Theorems (coq/theories/C08/Property.v, all "Closed under the global context"):
-  C08_crash_atomic_partial       for every input and every prefix length k: at most k effects happened and the
-                                 destination node is its old node, or a File moved wholesale from the temp path by
-                                 os.replace (OReplace in the first k effects) after EVERY action between the
-                                 creation of the temp file and the rename returned normally
-                                 (`replaced_by_complete`).  Partial only in that the bytes of that complete temp
-                                 file are not identified in closed form with `image` for every tensor kind (see
-                                 Proofs6 for what is proved about `image`); never a mixture/truncation is proved
-                                 in full.
-  C08_new_is_image_partial       replaced_by_complete .. d m -> d = image ..  when no ExternalTensor is among the
-                                 written tensors (in-memory, lazy, third-party multi-chunk tensors): seek+write
-                                 composition (write_at_app) through every chunk.
-  C08_crash_atomic_image_partial the full-strength statement (old node, or exactly `image` and only if os.replace is
-                                 among the first k effects) on that sub-domain.  MISSING: the same for
-                                 ExternalTensor inputs (the ARead/AWriteBuf chunk-copy loop); tie only.
-  C08_interrupt_atomic_partial   the same for any kill point combined with any single injected fault.
-  C08_exception_clean            exception, no kill, fault not in the cleanup: the WHOLE directory equals the
-                                 initial one (dest = old, no temp file/dir, nothing else touched), validity
-                                 flags unchanged.  Single-fault assumption is in the statement.
+Theorems (coq/theories/C08/Property.v, all "Closed under the global context"; none partial):
+  C08_crash_atomic               for every input and every prefix length k: at most k effects happened and the
+                                 destination node is its old node, or a File whose bytes are exactly
+                                 `image` (every tensor's bytes at its offset, holes = zeros), the latter only
+                                 with OReplace among the first k effects.  Hypotheses: single_wf (mkdtemp fresh,
+                                 dest not a directory), src_wf (ExternalTensor sources not inside the temp dir).
+  C08_interrupt_atomic           the same for any kill point combined with any single injected fault and any
+                                 kind of tensor/callback exception.
+  C08_new_is_image               the completely written temp file holds `image` for EVERY tensor kind, incl.
+                                 the chunked copy loop of ExternalTensor.tofile (any chunk size; short sources
+                                 make the loop raise, so they never reach the rename) - Proofs6.copy_Cont.
+  C08_interrupt_structural       without src_wf: old node or a file moved wholesale after every action between
+                                 temp creation and os.replace returned normally.
+  C08_exception_clean            exception of ANY kind (Exception or BaseException-only: KeyboardInterrupt /
+                                 SystemExit = OtherError in the shared enum, Model.is_base_exception), no kill,
+                                 fault not in the cleanup: the WHOLE directory equals the initial one (dest = old,
+                                 no temp file/dir, nothing else touched), validity flags unchanged.  Single-fault
+                                 assumption is in the statement.  The model's handlers are PTry (= `finally`,
+                                 runs for every kind), which is what _write_external_data uses; the kinds are
+                                 explicit in ACallback/AEvalRaise/TLazyRaise/TMulti/sc_cb.
   C08_exception_tensors_read_old ... and every ExternalTensor reads what it read before.
   C08_sharded_never_overwrites   run_sharded under any interruption leaves every pre-existing path unchanged.
   C08_invalidate_only_if_replaced  invalid afterwards -> invalid before, or samefile(dest) and dest replaced.
   C08_bystanders_untouched       a single-file save never changes any other pre-existing path.
+Interruptions injected by the generator: OSError at every FS effect; os._exit at every effect; and from tensors
+(lazy evaluation, third-party tofile between two chunks) and callbacks: RuntimeError, KeyboardInterrupt and
+SystemExit (serial and max_workers>1) - the last two are what a Ctrl-C / sys.exit() in a SIGTERM handler look
+like to the save, and they bypass any `except Exception` cleanup.
 Model choices worth knowing: an empty write changes nothing (write_at f off [] = f), a hole reads as zeros; the control flow of the plan is resolved on the initial file system (islink,
 samefile, exists are re-evaluated dynamically only for the logged result); the tie compares both, so a
 divergence shows up as a trace mismatch.  Hard links are independent files in the model (true as long as
@@ -77,6 +82,10 @@ Mutants tried (scratch worktree /tmp/wt-C08, VERIF_REPO), all reported VIOLATION
   M5 small external tensors loaded after the write      -> correspondence only (trace), no-failing-input-found
   M6 symlinked destination not resolved (no realpath)   -> oracle replay (pre-existing symlink replaced)
   M7 os.remove dropped from the finally                 -> oracle replay (temp file+dir left)
+  seeded C08-m3 (finally -> `except Exception: cleanup; raise` + rmdir on success)
+                                                         -> oracle replay (SystemExit/KeyboardInterrupt from a tensor or
+                                                            callback leaves .m.data.XXXX/ behind); before BaseException
+                                                            kinds were injected this was only a correspondence break
 Unchanged tree: quiet for VERIF_SEED 0..4.
 """
 
@@ -112,6 +121,12 @@ class Tok:
                 self.ids[c] = len(self.ids) + 1
             out.append(cN(self.ids[c]))
         return clist(out)
+
+
+def c_exn(name) -> str:
+    """Exception kind in the shared enum: the BaseException-only kinds are reported as OtherError
+    (Model.is_base_exception)."""
+    return "RuntimeError" if (name or "RuntimeError") == "RuntimeError" else "OtherError"
 
 
 def c_bytes(b) -> str:
@@ -259,16 +274,23 @@ def scenario_terms(scn: dict, root: str, tok: Tok, tag: str):
             elif k == "ext":
                 sp = f"TExt {cnat(handle_of[i])}"
             elif k == "lazy_raise":
-                sp = "TLazyRaise"
+                sp = f"(TLazyRaise {c_exn(t.get('exc'))})"
             else:
                 data, pos, chunks = S._bytes(t["seed"], sum(t["chunks"])), 0, []
                 for c in t["chunks"]:
                     chunks.append(c_bytes(data[pos:pos + c]))
                     pos += c
-                sp = f"TMulti {clist(chunks)} {copt(t.get('raise_after'), cnat)}"
+                sp = f"TMulti {clist(chunks)} {copt(t.get('raise_after'), cnat)} {c_exn(t.get('exc'))}"
             tl.append(f"({cnat(off)}, {sp})")
         cb = scn.get("cb")
-        cbt = "None" if cb is None else ("(Some None)" if cb == "ok" else f"(Some (Some {cnat(cb)}))")
+        if cb is None:
+            cbt = "None"
+        elif cb == "ok":
+            cbt = "(Some None)"
+        elif isinstance(cb, dict):
+            cbt = f"(Some (Some ({cnat(cb['at'])}, {c_exn(cb.get('exc'))})))"
+        else:
+            cbt = f"(Some (Some ({cnat(cb)}, RuntimeError)))"
         scs.append("{| sc_req := %s; sc_tmpd := %s; sc_tensors := %s; sc_chunk := %s; sc_cb := %s; sc_cbbase := %s |}" % (
             tok(canon.comps(req)), tok(tmpd), clist(tl), cnat(min(scn.get("chunk") or 4000, 4000)), cbt, cnat(base)))
         base += len(items)
@@ -437,16 +459,17 @@ def gen_scenario(rng, sharded: bool = False) -> dict:
             chunks = [rng.choice([1, 2, 5]) for _ in range(rng.choice([1, 2, 3]))]
             chunks[0] += thr
             ra = rng.choice([None, None, None] + list(range(len(chunks) + 1)))
-            tensors.append({"kind": "multi", "chunks": chunks, "seed": rng.randrange(1 << 20), "raise_after": ra})
+            tensors.append({"kind": "multi", "chunks": chunks, "seed": rng.randrange(1 << 20), "raise_after": ra,
+                            "exc": gen_exc(rng)})
         elif k == "small":
             ln = rng.randrange(1, thr + 1)
             ln = min(ln, len(old))
             tensors.append({"kind": "small", "file": backing_name(backing, dest_kind, rng),
                             "off": rng.randrange(0, len(old) - ln + 1), "len": ln, "preload": rng.random() < 0.5})
         else:
-            tensors.append({"kind": "lazy_raise", "n": thr + 2})
+            tensors.append({"kind": "lazy_raise", "n": thr + 2, "exc": gen_exc(rng)})
     nbig = sum(1 for t in tensors if tensor_nbytes(t) > thr)
-    cb = rng.choice([None, None, "ok", "ok"] + ([rng.randrange(nbig)] if nbig else []))
+    cb = rng.choice([None, None, "ok", "ok"] + ([{"at": rng.randrange(nbig), "exc": gen_exc(rng)}] * 2 if nbig else []))
     scn = {"files": files, "dirs": dirs, "req": req, "threshold": thr, "chunk": rng.choice([1, 3, 5, 8, 64]),
            "cb": cb, "max_workers": rng.choice([None, None, 1]), "max_shard": None, "tensors": tensors}
     if sharded:
@@ -461,6 +484,12 @@ def gen_scenario(rng, sharded: bool = False) -> dict:
                         scn["dirs"].append(os.path.dirname(victim))
                     scn["files"][victim] = {"kind": "file", "bytes": [9, 9, 9, 9], "mode": 0o600}
     return scn
+
+
+def gen_exc(rng) -> str:
+    """Kind of an injected tensor/callback failure: an ordinary Exception or a BaseException-only interruption
+    (Ctrl-C -> KeyboardInterrupt, sys.exit() in a SIGTERM handler / lazy tensor -> SystemExit)."""
+    return rng.choice(["RuntimeError", "RuntimeError", "KeyboardInterrupt", "SystemExit"])
 
 
 def backing_name(backing, dest_kind, rng):
@@ -507,6 +536,8 @@ def exercise(ck, scn: dict, tag: str, root: str, kills: bool = True, faults: boo
         {"scenario": scn, "mode": "none", "index": None, "impl_log": [list(map(str, e)) for e in log],
          "impl_outcome": c_sig(outcome)}))
     ck.hist("outcome_uninterrupted", c_sig(outcome))
+    if outcome[0] == "raise":
+        ck.hist("exception_types_uninterrupted", type(outcome[1]).__name__)
     for k in set(kinds):
         ck.hist("effect_kinds", k, kinds.count(k))
     n = ctl.n
@@ -673,6 +704,11 @@ def run(ck) -> None:
     for i in range(n_shard):
         scns.append((gen_scenario(ck.rng, sharded=True), "shard"))
     root = os.path.join(ck.scratch, "d")
+    par_corpus = [s for s, _ in scns if (s.get("max_workers") or 1) > 1]
+    scns = [(s, src) for s, src in scns if (s.get("max_workers") or 1) <= 1]
+    for scn in par_corpus:
+        oracle_failures += exercise_parallel(ck, scn, root)
+        ck.hist("scenario_source", "corpus-parallel")
     for i, (scn, src) in enumerate(scns):
         sr = exercise(ck, scn, str(i), root)
         runs.append(sr)
@@ -779,8 +815,11 @@ def shrink(ck, f: dict) -> dict:
                 break
             s2 = json.loads(json.dumps(scn))
             del s2["tensors"][i]
-            if isinstance(s2.get("cb"), int):
-                s2["cb"] = "ok"
+            if isinstance(s2.get("cb"), (int, dict)) and not isinstance(s2.get("cb"), bool):
+                at = s2["cb"]["at"] if isinstance(s2["cb"], dict) else s2["cb"]
+                nb = sum(1 for t in s2["tensors"] if tensor_nbytes(t) > s2["threshold"])
+                if at >= nb:
+                    s2["cb"] = "ok"
             r = failing(s2)
             if r:
                 cur.update(scenario=s2, index=r[0], failures=r[1])
